@@ -34,7 +34,8 @@ CONSTANTS
     Sessions,          \* session ids (positive integers)
     Accounts, Pools,   \* account / pool names (disjoint sets of strings)
     PFree,             \* price of freeing one sector
-    PStor, PIngr, PColl, \* append: storage per new sector, ingress per batch, risked collateral per new sector
+    PStorB, PIngr, PCollB, \* append: storage per new sector per block of remaining duration (rev.dur), ingress per batch,
+                       \* risked collateral per new sector per block
     PRoots,            \* sector roots RPC (up to 128 roots)
     PEgr,              \* read of up to 4 KiB
     PWstor, PIngr4k,   \* write: temp storage, ingress per 4 KiB
@@ -52,13 +53,14 @@ VARIABLES
     pex,      \* pools that exist (credited at least once)
     att,      \* account -> sequence of attached pools (attachment order)
     lock,     \* 0 or the session holding the contract lock
-    renewed,  \* the contract has been renewed / refreshed (no longer revisable)
+    olds,     \* the contracts this one was olds / refreshed from, frozen: sequence of [rev, roots]
+              \* (after a renewal `rev` / `roots` are those of the RENEWAL; the host still holds the old ones)
     sess,     \* per session: what the host handler is doing
     act, reply, calls   \* bookkeeping: last action, what the renter read, contractor/sector calls made
 
-data  == <<rev, sigs, roots, stored, acct, pool, pex, att, renewed>>
-vars  == <<rev, sigs, roots, stored, acct, pool, pex, att, lock, renewed, sess, act, reply, calls>>
-view  == <<rev, sigs, roots, stored, acct, pool, pex, att, lock, renewed, sess>>
+data  == <<rev, sigs, roots, stored, acct, pool, pex, att, olds>>
+vars  == <<rev, sigs, roots, stored, acct, pool, pex, att, lock, olds, sess, act, reply, calls>>
+view  == <<rev, sigs, roots, stored, acct, pool, pex, att, lock, olds, sess>>
 
 -----------------------------------------------------------------------------
 (* helpers *)
@@ -137,7 +139,7 @@ RemoveFirst(s, x) ==
     ELSE s
 
 Unlock(s) == IF lock = s THEN 0 ELSE lock
-Locked == lock # 0 \/ renewed     \* a revising handler is refused: try-lock held, or not revisable
+Locked == lock # 0     \* a revising handler is refused while another one holds the try-lock
 
 -----------------------------------------------------------------------------
 (* session plumbing *)
@@ -216,7 +218,7 @@ BeginFree(s, idx, pf, cf) ==
                /\ roots' = IF DevFreeAlias THEN arr ELSE roots
                /\ calls' = <<>>
                /\ reply' = NoneR
-               /\ UNCHANGED <<rev, sigs, stored, acct, pool, pex, att, renewed>>
+               /\ UNCHANGED <<rev, sigs, stored, acct, pool, pex, att, olds>>
 
 Round2Free(s, sf) ==
     /\ sess[s].rpc = "free" /\ sess[s].round = 2
@@ -228,7 +230,7 @@ Round2Free(s, sf) ==
             /\ roots' = sess[s].nroots
             /\ sess' = [sess EXCEPT ![s].round = 3, ![s].pend = OkR]
             /\ calls' = <<"RV">>
-            /\ UNCHANGED <<stored, acct, pool, pex, att, renewed, lock>>
+            /\ UNCHANGED <<stored, acct, pool, pex, att, olds, lock>>
        ELSE /\ sess' = [sess EXCEPT ![s].round = 3, ![s].pend = RejR]
             /\ lock' = Unlock(s)
             /\ calls' = <<>>
@@ -249,8 +251,8 @@ BeginAppend(s, secs, pf, cf) ==
                 k    == Len(acc)
                 room == rev.cap - rev.size
                 g    == IF k > room THEN k - room ELSE 0
-                cost == g * PStor + (IF g > 0 THEN PIngr ELSE 0)
-                coll == g * PColl
+                cost == g * PStorB * rev.dur + (IF g > 0 THEN PIngr ELSE 0)
+                coll == g * PCollB * rev.dur
             IN /\ sess' = [sess EXCEPT ![s] = [IdleS EXCEPT !.rpc = "append", !.round = 1,
                               !.pend = Rep("resp", k, Flags(secs)), !.nroots = roots \o acc, !.k = k, !.g = g,
                               !.cost = cost, !.coll = coll, !.fail = ~CanPay(rev, cost, coll)]]
@@ -270,7 +272,7 @@ Round2Append(s, sf) ==
             /\ roots' = sess[s].nroots
             /\ sess' = [sess EXCEPT ![s].round = 3, ![s].pend = OkR]
             /\ calls' = <<"RV">>
-            /\ UNCHANGED <<stored, acct, pool, pex, att, renewed, lock>>
+            /\ UNCHANGED <<stored, acct, pool, pex, att, olds, lock>>
        ELSE /\ sess' = [sess EXCEPT ![s].round = 3, ![s].pend = RejR]
             /\ lock' = Unlock(s)
             /\ calls' = <<>>
@@ -291,14 +293,14 @@ BeginRoots(s, off, len, pf, sf) ==
             /\ lock' = s
             /\ calls' = <<"RV">>
             /\ reply' = NoneR
-            /\ UNCHANGED <<roots, stored, acct, pool, pex, att, renewed>>
+            /\ UNCHANGED <<roots, stored, acct, pool, pex, att, olds>>
 
 BeginLatest(s) ==
     /\ Idle(s)
     /\ act' = [op |-> "BeginLatest", s |-> s]
     /\ IF lock # 0
        THEN Reject(s, "latest")
-       ELSE /\ Final(s, "latest", Rep("ok", rev.num, <<IF renewed THEN 1 ELSE 0>>))
+       ELSE /\ Final(s, "latest", Rep("ok", rev.num, <<0>>))
             /\ calls' = <<>>
             /\ reply' = NoneR
             /\ UNCHANGED <<data, lock>>
@@ -325,7 +327,7 @@ BeginFund(s, deps, sf, af) ==
                   /\ lock' = s
                   /\ calls' = <<"CA">>
                   /\ reply' = NoneR
-                  /\ UNCHANGED <<roots, stored, pool, pex, att, renewed>>
+                  /\ UNCHANGED <<roots, stored, pool, pex, att, olds>>
 
 Bal(kind) == IF kind = "accts" THEN acct ELSE pool
 
@@ -372,7 +374,7 @@ Round2Repl(s, sf) ==
                     /\ UNCHANGED acct
             /\ sess' = [sess EXCEPT ![s].round = 3, ![s].pend = OkR]
             /\ calls' = <<IF sess[s].kind = "accts" THEN "CA" ELSE "CP">>
-            /\ UNCHANGED <<roots, stored, att, renewed, lock>>
+            /\ UNCHANGED <<roots, stored, att, olds, lock>>
        ELSE /\ sess' = [sess EXCEPT ![s].round = 3, ![s].pend = RejR]
             /\ lock' = Unlock(s)
             /\ calls' = <<>>
@@ -409,7 +411,7 @@ BeginAttach(s, b) ==
                  /\ Final(s, "attach", OkR)
                  /\ calls' = <<"AT">>
                  /\ reply' = NoneR
-                 /\ UNCHANGED <<rev, sigs, roots, stored, acct, pool, pex, renewed, lock>>
+                 /\ UNCHANGED <<rev, sigs, roots, stored, acct, pool, pex, olds, lock>>
 
 BeginDetach(s, b) ==
     /\ Idle(s)
@@ -420,7 +422,7 @@ BeginDetach(s, b) ==
             /\ Final(s, "detach", OkR)
             /\ calls' = <<"DT">>
             /\ reply' = NoneR
-            /\ UNCHANGED <<rev, sigs, roots, stored, acct, pool, pex, renewed, lock>>
+            /\ UNCHANGED <<rev, sigs, roots, stored, acct, pool, pex, olds, lock>>
 
 -----------------------------------------------------------------------------
 (* paid services: read / write / verify sector, account balance.
@@ -445,7 +447,7 @@ Service(s, rpc, a, cost, precond, what, r) ==
               /\ Final(s, rpc, r)
               /\ calls' = <<"D+", what>>
               /\ reply' = NoneR
-              /\ UNCHANGED <<rev, sigs, roots, pex, att, renewed, lock>>
+              /\ UNCHANGED <<rev, sigs, roots, pex, att, olds, lock>>
 
 BeginRead(s, a, sec, units, tf, pf) ==
     /\ Idle(s)
@@ -475,29 +477,48 @@ BeginBalance(s, a) ==
     /\ UNCHANGED <<data, lock>>
 
 -----------------------------------------------------------------------------
-(* renew / refresh: after the host has called RenewV2Contract the contract is no longer
-   revisable; its stored revision does not change *)
+(* renew / refresh.  The request carries the allowance A and collateral C of the new contract.  When the
+   host has verified the renter's signatures it calls RenewV2Contract: the old contract is final from then on
+   (frozen in `olds`: the host still holds it and its roots must keep matching its last revision), and the
+   RENEWAL -- revision 0, the same roots -- is the contract every later request works on.  The property is
+   silent on the economics of a renewal (C16): the renter payout and the missed host value follow the
+   request, the other fields (x: valid host payout, total collateral, heights, duration) are the host's. *)
 
-BeginRenew(s, kind, pf, cf, rf) ==      \* rf: class of the renewal parameters
+NewRev(r, kind, A, C, x) ==
+    [num |-> 0,
+     rout |-> IF kind = "refresh" THEN r.rout + A ELSE A,
+     hout |-> x.hout,
+     missed |-> IF kind = "refresh" THEN r.missed + C ELSE C,
+     coll |-> x.coll,
+     size |-> r.size,
+     cap |-> IF kind = "renew" THEN r.size ELSE r.cap,
+     commit |-> r.commit,
+     ph |-> x.ph, eh |-> x.eh, dur |-> x.dur, rk |-> r.rk, hk |-> r.hk]
+
+BeginRenew(s, kind, pf, cf, rf, A, C) ==      \* rf: class of the renewal parameters
     /\ Idle(s)
-    /\ act' = [op |-> "BeginRenew", s |-> s, kind |-> kind, pf |-> pf, cf |-> cf, rf |-> rf]
+    /\ act' = [op |-> "BeginRenew", s |-> s, kind |-> kind, pf |-> pf, cf |-> cf, rf |-> rf, na |-> A, nc |-> C]
     /\ IF pf # "ok" \/ Locked \/ cf # "ok" \/ rf # "ok"
        THEN Reject(s, "renew")
-       ELSE /\ sess' = [sess EXCEPT ![s] = [IdleS EXCEPT !.rpc = "renew", !.round = 1, !.kind = kind, !.pend = Rep("resp", 0, <<>>)]]
+       ELSE /\ sess' = [sess EXCEPT ![s] = [IdleS EXCEPT !.rpc = "renew", !.round = 1, !.kind = kind, !.pend = Rep("resp", 0, <<>>),
+                                                       !.cost = A, !.coll = C]]
             /\ lock' = s
             /\ calls' = <<>>
             /\ reply' = NoneR
             /\ UNCHANGED data
 
-Round2Renew(s, sf) ==
+Round2Renew(s, sf, x) ==
     /\ sess[s].rpc = "renew" /\ sess[s].round = 2
     /\ act' = [op |-> "Round2Renew", s |-> s, sf |-> sf, kind |-> sess[s].kind]
     /\ reply' = NoneR
     /\ IF sf = "ok"
-       THEN /\ renewed' = TRUE
+       THEN /\ x.hout >= 0 /\ x.coll >= 0 /\ x.dur > 0
+            /\ olds' = Append(olds, [rev |-> rev, roots |-> roots])
+            /\ rev' = NewRev(rev, sess[s].kind, sess[s].cost, sess[s].coll, x)
+            /\ sigs' = [r |-> rev', h |-> rev']
             /\ sess' = [sess EXCEPT ![s].round = 3, ![s].pend = OkR]
             /\ calls' = <<"RN">>
-            /\ UNCHANGED <<rev, sigs, roots, stored, acct, pool, pex, att, lock>>
+            /\ UNCHANGED <<roots, stored, acct, pool, pex, att, lock>>
        ELSE /\ sess' = [sess EXCEPT ![s].round = 3, ![s].pend = RejR]
             /\ lock' = Unlock(s)
             /\ calls' = <<>>
@@ -507,7 +528,11 @@ Round2Renew(s, sf) ==
 (* Properties.  State invariants first. *)
 
 \* C09
-RootsMatchRevision == rev.commit = roots /\ rev.size = Len(roots) /\ rev.size <= rev.cap
+RootsMatchRevision ==      \* for EVERY contract the host holds: the current one and the ones it was renewed from
+    /\ rev.commit = roots /\ rev.size = Len(roots) /\ rev.size <= rev.cap
+    /\ \A i \in DOMAIN olds : olds[i].rev.commit = olds[i].roots /\ olds[i].rev.size = Len(olds[i].roots)
+\* a replaced contract is final: nothing ever changes its revision or its roots
+OldsFrozen == [][\A i \in DOMAIN olds : i \in DOMAIN olds' /\ olds'[i] = olds[i]]_vars
 Readable == Range(roots) \subseteq stored
 
 \* C08
@@ -523,13 +548,14 @@ AttachedExist == \A a \in Accounts : Range(att[a]) \subseteq pex /\ NoDup(att[a]
 
 (* Action properties ([][A]_vars): relations between consecutive states. *)
 
-Committed == rev' # rev
+Renewal == act'.op = "Round2Renew"      \* the step that replaces the contract by its renewal
+Committed == rev' # rev /\ ~Renewal
 
 \* C08: every committed revision ...
 RevMonotone    == [][Committed => rev'.num > rev.num]_vars
-Immutable      == [][rev'.rk = rev.rk /\ rev'.hk = rev.hk /\ rev'.ph = rev.ph /\ rev'.eh = rev.eh /\ rev'.coll = rev.coll]_vars
-PayoutSumConstant == [][rev'.rout + rev'.hout = rev.rout + rev.hout]_vars
-NoHostToRenter == [][rev'.rout <= rev.rout /\ rev'.hout >= rev.hout /\ rev'.missed <= rev.missed /\ rev'.cap >= rev.cap]_vars
+Immutable      == [][Renewal \/ (rev'.rk = rev.rk /\ rev'.hk = rev.hk /\ rev'.ph = rev.ph /\ rev'.eh = rev.eh /\ rev'.coll = rev.coll /\ rev'.dur = rev.dur)]_vars
+PayoutSumConstant == [][Renewal \/ rev'.rout + rev'.hout = rev.rout + rev.hout]_vars
+NoHostToRenter == [][Renewal \/ (rev'.rout <= rev.rout /\ rev'.hout >= rev.hout /\ rev'.missed <= rev.missed /\ rev'.cap >= rev.cap)]_vars
 ExactCharge    == [][Committed => rev.rout - rev'.rout = act'.cost]_vars
 SignedCommit   == [][Committed => sigs'.r = rev' /\ sigs'.h = rev']_vars
 CommitHoldsLock == [][Committed => (lock' = act'.s /\ lock \in {0, act'.s})]_vars
@@ -542,6 +568,7 @@ BadRequestIsNoop == [][Flawed(act') => UNCHANGED data]_vars
 \* C09: whatever happens, an abort / failure / hang-up is a no-op, and roots change only with a commit
 AbortIsNoop == [][act'.op \in {"Abort", "Truncated", "Deliver", "Finish", "Ignored"} => UNCHANGED data]_vars
 RootsOnlyWithCommit == [][roots' # roots => (Committed /\ rev'.commit = roots')]_vars
+RenewalKeepsRoots == [][Renewal /\ rev' # rev => (rev'.num = 0 /\ rev'.commit = rev.commit /\ roots' = roots /\ sigs'.r = rev' /\ sigs'.h = rev' /\ lock = act'.s)]_vars
 
 \* C15
 CreditBacked ==
